@@ -3,7 +3,7 @@
    usage: confirm_mutant.py <src dir with patch.diff demo.py meta.json> <seed id> <check results json or ->"""
 import json, os, subprocess, sys, shutil
 src, sid = sys.argv[1], sys.argv[2]
-WT = '/tmp/mut_confirm'
+WT = '/tmp/mut_confirm_' + os.environ.get('MUT_SLOT', '0')
 def sh(cmd, **kw):
     return subprocess.run(cmd, shell=True, capture_output=True, text=True, **kw)
 if not os.path.isdir(WT):
